@@ -73,7 +73,8 @@ func genC04Parsers(id string) ([]harnessFile, error) {
 		fmt.Fprintf(&sb, "//verif:dir %s\npackage %s\n\nimport enc \"github.com/named-data/ndnd/std/encoding\"\n\n", gm.dir, gm.pkg)
 		sb.WriteString(`// generated at check time by vcheck (genC04Parsers): arbitrary input into every generated parser.
 // shape 0: n arbitrary bytes; shape 1: one TLV header whose type and length are arbitrary
-// 64-bit numbers (each in a solver-chosen 1/3/5/9-byte form) followed by a few arbitrary bytes.
+// 64-bit numbers (each in a solver-chosen 1/3/5/9-byte form) followed by a few arbitrary bytes;
+// shape 2: one complete small element, then a header with a one-byte type and an arbitrary 64-bit length.
 func verif` + id + `Num(name string, buf []byte, forms int) []byte {
 	v := verifU64(name)
 	switch verifChoice(name+"form", forms) {
@@ -92,18 +93,29 @@ func verif` + id + `Num(name string, buf []byte, forms int) []byte {
 
 func verif` + id + `Parse(parse func(r enc.ParseReader, ic bool)) {
 	var in []byte
-	if verifChoice("shape", 2) == 0 {
+	shape := verifChoice("shape", 3)
+	switch shape {
+	case 0:
 		n := verifParam("parsebytes", 5)
 		in = verifBytesN("in", verifChoice("len", n+1))
-	} else {
+	case 1:
 		in = verif` + id + `Num("T", make([]byte, 0, 32), 2) // types: 1- and 3-byte forms (5/9-byte type numbers are covered by shape 0)
 		in = verif` + id + `Num("L", in, 4)
 		in = append(in, verifBytesN("tail", verifChoice("taillen", verifParam("tlvtail", 2)+1))...)
+	case 2:
+		// a complete small element (arbitrary type, 0..1 value bytes) followed by a header with an arbitrary one-byte type
+		// and an arbitrary 64-bit length: the second element of a structure, the value that follows a map key
+		in = append(make([]byte, 0, 40), verifByte("t1"))
+		l1 := verifChoice("l1", 2)
+		in = append(in, byte(l1))
+		in = append(in, verifBytesN("v1", l1)...)
+		in = append(in, verifByte("t2"))
+		in = verif` + id + `Num("L", in, 4)
 	}
 	ic := verifBool("ignoreCritical")
 	verifAllocBound("` + id + `/parse/alloc-bound", 64*len(in)+4096)
 	verifStepBudget("` + id + `/parse/terminates", 400000)
-	if verifChoice("reader", 2) == 0 {
+	if shape == 2 || verifChoice("reader", 2) == 0 { // shape 2: contiguous reader only (cost)
 		verifNoPanic("` + id + `/parse/no-panic", func() { parse(enc.NewBufferReader(in), ic) })
 	} else {
 		cut := int(verifRange("cut", 0, uint64(len(in)))) // symbolic split point
